@@ -1,23 +1,333 @@
 package gosym
 
 import (
+	"fmt"
 	"go/token"
+	"path/filepath"
+	"strings"
 
 	"golang.org/x/tools/go/ssa"
 )
 
-type fsModel struct{}
+// Symbolic file system (DESIGN.md section 3.6): a POSIX-style model of what a crash or power loss may
+// leave behind. It is the trusted part of C05.
+//
+//   - an inode has volatile content (what a reader sees now) and durable content (what is on the
+//     medium); write changes the volatile content, fsync(file) makes it durable;
+//   - a directory has a volatile and a durable name->inode map; create/remove/rename change the
+//     volatile map, fsync(dir) makes it durable;
+//   - at a crash every name resolves, by symbolic choice, through the durable or the volatile map (the
+//     kernel may or may not have written the directory back) and every inode holds, by symbolic choice,
+//     its durable content, its volatile content, or - when they differ - a torn mixture ("partial");
+//   - every call may fail (symbolic fault) without effect; a failing write may leave partial content;
+//   - the crash point is a symbolic choice before each call ("the last call that completed").
+//
+// Content is abstract: 0 = empty, 1 = old image, 2 = new image, 3 = partial/torn.
+const (
+	fsEmpty = iota
+	fsOld
+	fsNew
+	fsPartial
+	fsAbsent = -1
+)
+
+type fsInode struct {
+	id  int
+	vol int
+	dur int
+}
+
+type fsFile struct {
+	ino    *fsInode
+	closed bool
+	isDir  bool
+	name   string
+}
+
+type fsModel struct {
+	vol       map[string]*fsInode
+	dur       map[string]*fsInode
+	files     []*fsFile
+	step      int
+	crashed   bool
+	faultSeq  int
+	inoSeq    int
+	armed     bool // crash / fault injection enabled
+	faults    int
+	maxFaults int
+	trace     []string
+}
+
+type crashPanic struct{}
+
+func (in *Interp) fs() *fsModel {
+	if in.env.fs == nil {
+		in.env.fs = &fsModel{vol: map[string]*fsInode{}, dur: map[string]*fsInode{}, maxFaults: 1}
+	}
+	return in.env.fs
+}
+
+// point is called before every file-system call: the process may die here, or the call may fail.
+func (in *Interp) fsPoint(name string) (fail bool) {
+	m := in.fs()
+	m.step++
+	m.trace = append(m.trace, name)
+	if !m.armed {
+		return false
+	}
+	if in.chooseN(fmt.Sprintf("$crash%d", m.step), 2) == 1 {
+		m.crashed = true
+		m.trace = append(m.trace, "CRASH")
+		panic(crashPanic{})
+	}
+	if m.faults < m.maxFaults && in.chooseN(fmt.Sprintf("$fault%d", m.step), 2) == 1 {
+		m.faults++
+		m.trace = append(m.trace, "FAULT")
+		return true
+	}
+	return false
+}
+
+func (in *Interp) fsErr(msg string, notExist bool) Value {
+	e := in.mkError(msg)
+	if notExist {
+		in.ghost["notexist:"+fmt.Sprintf("%p", in.force(e).V)] = Boolc(true)
+	}
+	return e
+}
+
+func (in *Interp) newFile(f *fsFile, t ssa.Value) Value {
+	m := in.fs()
+	m.files = append(m.files, f)
+	// *os.File is represented as a pointer to a struct holding the handle index
+	var v Value = Struct{ci(len(m.files) - 1)}
+	return &v
+}
+
+func (in *Interp) fileOf(v Value, pos token.Pos) *fsFile {
+	p, ok := v.(*Value)
+	if !ok {
+		in.goPanicf(pos, "invalid memory address or nil pointer dereference (nil *os.File)")
+	}
+	st := (*p).(Struct)
+	return in.fs().files[int(st[0].(*Term).U)]
+}
 
 func (in *Interp) osCall(fr *frame, fn *ssa.Function, full string, args []Value, pos token.Pos) (Value, bool) {
+	m := in.fs()
+	switch full {
+	case "path/filepath.Dir":
+		return StrV(filepath.Dir(str(args[0]))), true
+	case "path/filepath.Join":
+		return StrV(filepath.Join(in.strSlice(args[0])...)), true
+	case "os.IsNotExist":
+		e := in.force(args[0])
+		if e.T == nil {
+			return Boolc(false), true
+		}
+		_, ok := in.ghost["notexist:"+fmt.Sprintf("%p", e.V)]
+		return Boolc(ok), true
+	case "os.Remove":
+		name := str(args[0])
+		if in.fsPoint("remove " + name) {
+			return in.fsErr("remove "+name+": injected fault", false), true
+		}
+		if _, ok := m.vol[name]; !ok {
+			return in.fsErr("remove "+name+": no such file or directory", true), true
+		}
+		delete(m.vol, name)
+		return &Iface{}, true
+	case "os.OpenFile", "os.Open", "os.Create":
+		name := str(args[0])
+		flags := 0
+		if full == "os.OpenFile" {
+			flags = in.cint(args[1])
+		}
+		if in.fsPoint("open " + name) {
+			return Tuple{NilPtr{}, in.fsErr("open "+name+": injected fault", false)}, true
+		}
+		const oCreate, oExcl = 0x40, 0x80
+		if strings.HasSuffix(name, "/") || name == "." || m.isDir(name) {
+			return Tuple{in.newFile(&fsFile{isDir: true, name: name}, nil), &Iface{}}, true
+		}
+		ino, exists := m.vol[name]
+		if exists && flags&oCreate != 0 && flags&oExcl != 0 {
+			return Tuple{NilPtr{}, in.fsErr("open "+name+": file exists", false)}, true
+		}
+		if !exists {
+			if flags&oCreate == 0 && full != "os.Create" {
+				return Tuple{NilPtr{}, in.fsErr("open "+name+": no such file or directory", true)}, true
+			}
+			m.inoSeq++
+			ino = &fsInode{id: m.inoSeq, vol: fsEmpty, dur: fsEmpty}
+			m.vol[name] = ino
+		}
+		return Tuple{in.newFile(&fsFile{ino: ino, name: name}, nil), &Iface{}}, true
+	case "(*os.File).Close":
+		f := in.fileOf(args[0], pos)
+		if f.closed {
+			return in.fsErr("close: file already closed", false), true
+		}
+		if in.fsPoint("close " + f.name) {
+			f.closed = true
+			return in.fsErr("close: injected fault", false), true
+		}
+		f.closed = true
+		return &Iface{}, true
+	case "(*os.File).Sync":
+		f := in.fileOf(args[0], pos)
+		if in.fsPoint("fsync " + f.name) {
+			return in.fsErr("fsync: injected fault", false), true
+		}
+		if f.closed {
+			return in.fsErr("fsync: file already closed", false), true
+		}
+		if f.isDir {
+			m.dur = map[string]*fsInode{}
+			for k, v := range m.vol {
+				m.dur[k] = v
+			}
+		} else {
+			f.ino.dur = f.ino.vol
+		}
+		return &Iface{}, true
+	case "io.Copy":
+		// writing the new image into an *os.File
+		dst := in.force(args[0])
+		p, ok := dst.V.(*Value)
+		if !ok {
+			return nil, false
+		}
+		st, ok := (*p).(Struct)
+		if !ok || len(st) != 1 {
+			return nil, false
+		}
+		f := in.fileOf(p, pos)
+		// a crash in the middle of the write leaves a torn file
+		if m.armed && in.chooseN(fmt.Sprintf("$crashw%d", m.step+1), 2) == 1 {
+			f.ino.vol = fsPartial
+			m.crashed = true
+			m.trace = append(m.trace, "write "+f.name, "CRASH(mid-write)")
+			panic(crashPanic{})
+		}
+		if in.fsPoint("write " + f.name) {
+			f.ino.vol = fsPartial
+			return Tuple{ci(0), in.fsErr("write: injected fault", false)}, true
+		}
+		if f.closed {
+			return Tuple{ci(0), in.fsErr("write: file already closed", false)}, true
+		}
+		f.ino.vol = fsNew
+		return Tuple{ci(1), &Iface{}}, true
+	case "os.Rename":
+		from, to := str(args[0]), str(args[1])
+		if in.fsPoint("rename " + from + " " + to) {
+			return in.fsErr("rename: injected fault", false), true
+		}
+		ino, ok := m.vol[from]
+		if !ok {
+			return in.fsErr("rename "+from+": no such file or directory", true), true
+		}
+		m.vol[to] = ino
+		delete(m.vol, from)
+		return &Iface{}, true
+	case "os.ReadFile":
+		in.fail("unsupported", "os.ReadFile (use vf.FS to inspect the model)")
+	}
 	return nil, false
 }
 
+func (m *fsModel) isDir(name string) bool {
+	for k := range m.vol {
+		if filepath.Dir(k) == name {
+			return true
+		}
+	}
+	for k := range m.dur {
+		if filepath.Dir(k) == name {
+			return true
+		}
+	}
+	return false
+}
+
+// crashPoint implements vf.RunUntilCrash(f): runs f with crash and fault injection armed; returns
+// true when the process "died" inside f (no deferred call of the dying frames runs).
 func (in *Interp) crashPoint(fr *frame, id string, pos token.Pos) Value {
 	in.fail("unsupported", "vf.CrashPoint")
 	return nil
 }
 
+func (in *Interp) runUntilCrash(fr *frame, f Value, pos token.Pos) (res Value) {
+	m := in.fs()
+	m.armed = true
+	depth := in.depth
+	defer func() {
+		m.armed = false
+		if r := recover(); r != nil {
+			if _, ok := r.(crashPanic); !ok {
+				panic(r)
+			}
+			in.depth = depth
+			res = Boolc(true)
+		}
+	}()
+	in.callValue(fr, f, nil, pos)
+	return Boolc(false)
+}
+
+// fsCall implements vf.FS(op, path) int:
+//
+//	"seed-old"   path now holds the old image, durably
+//	"seed-stale" path now holds a stale partial file, durably (left over from an earlier crash)
+//	"content"    volatile content code of path (-1: absent)
+//	"after-crash" content code of path as found after a crash / power loss (symbolic choices)
+//	"steps"      number of file-system calls made so far
 func (in *Interp) fsCall(fr *frame, args []Value, pos token.Pos) Value {
-	in.fail("unsupported", "vf.FS")
+	m := in.fs()
+	op, name := str(args[0]), str(args[1])
+	switch op {
+	case "seed-old", "seed-stale":
+		m.inoSeq++
+		c := fsOld
+		if op == "seed-stale" {
+			c = fsPartial
+		}
+		ino := &fsInode{id: m.inoSeq, vol: c, dur: c}
+		m.vol[name] = ino
+		m.dur[name] = ino
+		return ci(0)
+	case "content":
+		if ino, ok := m.vol[name]; ok {
+			return ci(ino.vol)
+		}
+		return ci(fsAbsent)
+	case "steps":
+		return ci(m.step)
+	case "after-crash":
+		// which directory view survived
+		vi, vok := m.vol[name]
+		di, dok := m.dur[name]
+		ino, ok := di, dok
+		if vok != dok || vi != di {
+			if in.chooseN("$dirflushed:"+name, 2) == 1 {
+				ino, ok = vi, vok
+			}
+		}
+		if !ok {
+			return ci(fsAbsent)
+		}
+		if ino.vol == ino.dur {
+			return ci(ino.dur)
+		}
+		switch in.chooseN(fmt.Sprintf("$dataflushed:%d", ino.id), 3) {
+		case 0:
+			return ci(ino.dur)
+		case 1:
+			return ci(ino.vol)
+		}
+		return ci(fsPartial)
+	}
+	in.fail("unsupported", "vf.FS "+op)
 	return nil
 }
